@@ -20,7 +20,7 @@ func init() {
 		Level: "fault_enumeration",
 		Rule: "reader: generated streams x every byte offset (all offsets for small streams, strided + random for larger) as the point where the reader fails with a sentinel error after a partial read (the error on the following Read, or together with the last bytes delivered), " +
 			"x reader kinds {seekable, plain, bufio} x {explicit, auto} x {NextPacket, NextData}; seeker: the Seek call of packet-size detection or of Rewind (after 0..5 calls) fails: no panic, no silent loss when no error is surfaced, a later Rewind with a working Seek restarts like a fresh Demuxer; writer: Muxer histories (WriteTables / WriteData ending in packets with 0, 1, 2, many stuffing bytes / WritePacket) " +
-			"re-run with the k-th Write call failing, for every k of the fault-free run, permanently and once, accepting 0 or a partial count; distinct = (stream or history, fault position, mode); " +
+			"re-run with the k-th Write call failing, for every k of the fault-free run, permanently and once, accepting 0 or a partial count; the same over sessions holding one unit of 47 091 bytes .. 1 MiB (stage writer-big); distinct = (stream or history, fault position, mode); " +
 			"non-trivial = the fault was actually injected during an API call",
 		Assumptions: []string{"for a bufio.Reader the pending call is the first call that returns an error (bufio delays the failure)", "after the first surfaced error the run stops: later behaviour is not part of the property"},
 		Shards:      32,
@@ -36,13 +36,36 @@ func init() {
 			need(m, &out, "writer_fault_region_stuffing-af", 20)
 			need(m, &out, "writer_fault_one_shot", 5000)
 			need(m, &out, "writer_fault_permanent", 5000)
+			need(m, &out, "writer_fault_sessions_with_big_units", 8)
 			return out
 		},
 		Exhaustive: func(tier string) bool { return true },
 	})
 }
 
+// writerFaultsBig: units of hundreds to thousands of packets (64 KiB and 1 MiB of output are crossed inside one call), every
+// (sampled) Write call of the session failing in turn.
+func writerFaultsBig(c *mon.Ctx, idx int64, r *rand.Rand) {
+	sizes := []int{64 << 10, 65536 + 200, 100000, 131072 + 300, 47091, 348*184 - 14, 349*184 - 14, 1<<20 + 500}
+	size := sizes[int(idx)%len(sizes)]
+	if !c.Thorough() && size > 300000 {
+		size = 250000
+	}
+	mk := func(n int) wop {
+		return wop{kind: "data", data: &astits.MuxerData{PID: 0x100, PES: &astits.PESData{Header: &astits.PESHeader{StreamID: 0xE0, OptionalHeader: &astits.PESOptionalHeader{MarkerBits: 2, PTSDTSIndicator: 2, PTS: &astits.ClockReference{Base: 90000}}}, Data: gen.Bytes(r, n)}}}
+	}
+	ops := []wop{{kind: "tables"}, mk(size + r.IntN(150)), mk(1 + r.IntN(400)), {kind: "tables"}}
+	writerFaultsOps(c, "writer-big", idx, r, ops)
+	c.Count("writer_fault_sessions_with_big_units")
+	c.Max("largest_unit_written_under_writer_faults_bytes", int64(size))
+}
+
 func runC18(c *mon.Ctx) {
+	for i := int64(0); i < c.Pick(8, 48); i++ {
+		if c.Mine("writer-big", i) {
+			writerFaultsBig(c, i, c.Rng("writer-big", i))
+		}
+	}
 	// ---- reader ----
 	n := c.Pick(160, 1500)
 	for i := int64(0); i < n; i++ {
@@ -410,6 +433,11 @@ func writerFaults(c *mon.Ctx, idx int64, r *rand.Rand) {
 	// a short (PSI style) payload the writer pads with 0xFF up to the packet size
 	ops = append(ops, wop{kind: "packet", pkt: &astits.Packet{Header: astits.PacketHeader{PID: 0x1501, HasPayload: true, PayloadUnitStartIndicator: true, ContinuityCounter: 3}, Payload: gen.Bytes(r, 1+r.IntN(170))}})
 	ops = append(ops, wop{kind: "tables"})
+	writerFaultsOps(c, "writer", idx, r, ops)
+}
+
+// writerFaultsOps runs a Muxer history once without faults, then once per (sampled) Write call of that run with that call failing.
+func writerFaultsOps(c *mon.Ctx, stage string, idx int64, r *rand.Rand, ops []wop) {
 	run := func(tap *mon.WTap) (ns []int, errs []error, acc []int, pan string) {
 		m := astits.NewMuxer(context.Background(), tap, astits.MuxerOptTablesRetransmitPeriod(3))
 		m.AddElementaryStream(astits.PMTElementaryStream{ElementaryPID: 0x100, StreamType: astits.StreamTypeAACAudio})
@@ -442,7 +470,7 @@ func writerFaults(c *mon.Ctx, idx int64, r *rand.Rand) {
 	clean.Keep = true
 	_, cerrs, _, pan := run(clean)
 	if pan != "" {
-		c.Violate("C18/writer/panic-without-fault", "writer", idx, pan, nil)
+		c.Violate("C18/writer/panic-without-fault", stage, idx, pan, nil)
 		return
 	}
 	for _, e := range cerrs {
@@ -496,7 +524,7 @@ func writerFaults(c *mon.Ctx, idx int64, r *rand.Rand) {
 			}
 			data := map[string]any{"failing_write_index": k, "mode": ms, "partial": tap.Partial, "region": region, "op": ops[rec.Call].kind}
 			if pan != "" {
-				c.Violate("C18/writer/panic:"+ops[rec.Call].kind, "writer", idx, pan, data)
+				c.Violate("C18/writer/panic:"+ops[rec.Call].kind, stage, idx, pan, data)
 				continue
 			}
 			c.Count("writer_faults_injected")
@@ -505,22 +533,22 @@ func writerFaults(c *mon.Ctx, idx int64, r *rand.Rand) {
 			c.Case(mon.HashStr("w", fmt.Sprint(idx, k, mode)), tap.InjCall >= 0)
 			ic := tap.InjCall
 			if ic < 0 || ic >= len(errs) {
-				c.Violate("C18/writer/fault-not-injected", "writer", idx, fmt.Sprintf("write %d was never reached (%d writes)", k, tap.NW), data)
+				c.Violate("C18/writer/fault-not-injected", stage, idx, fmt.Sprintf("write %d was never reached (%d writes)", k, tap.NW), data)
 				continue
 			}
 			op := ops[ic].kind
 			switch {
 			case errs[ic] == nil:
-				c.Violate("C18/writer/failure-swallowed:"+op+":"+region+":"+ms, "writer", idx, fmt.Sprintf("Write call %d failed during %s (call %d) which returned n=%d, err=nil", k, op, ic, ns[ic]), data)
+				c.Violate("C18/writer/failure-swallowed:"+op+":"+region+":"+ms, stage, idx, fmt.Sprintf("Write call %d failed during %s (call %d) which returned n=%d, err=nil", k, op, ic, ns[ic]), data)
 			case !errors.Is(errs[ic], mon.ErrInjected):
-				c.Violate("C18/writer/error-does-not-wrap-cause:"+op+":"+region, "writer", idx, fmt.Sprintf("%s returned %v", op, errs[ic]), data)
+				c.Violate("C18/writer/error-does-not-wrap-cause:"+op+":"+region, stage, idx, fmt.Sprintf("%s returned %v", op, errs[ic]), data)
 			case ns[ic] > acc[ic]:
-				c.Violate("C18/writer/count-exceeds-accepted:"+op+":"+region, "writer", idx, fmt.Sprintf("%s returned n=%d but the writer accepted %d bytes during the call", op, ns[ic], acc[ic]), data)
+				c.Violate("C18/writer/count-exceeds-accepted:"+op+":"+region, stage, idx, fmt.Sprintf("%s returned n=%d but the writer accepted %d bytes during the call", op, ns[ic], acc[ic]), data)
 			}
 		}
 	}
 	if idx < 2 {
-		c.Sample("writer", map[string]any{"ops": len(ops), "write_calls_fault_free": NW, "modes": "permanent/one-shot x reject/partial"})
+		c.Sample(stage, map[string]any{"ops": len(ops), "write_calls_fault_free": NW, "modes": "permanent/one-shot x reject/partial"})
 	}
 }
 
